@@ -70,7 +70,10 @@ def main():
     rc, out = sh("git status --porcelain", "/repo")
     if out.strip():
         print("/repo not clean, abort"); sys.exit(2)
-    rc, out = sh("git apply %s" % patch, "/repo")
+    rpatch = os.path.join(mdir, "patch_rebased.diff")   # same change rebased onto later fix: commits of /repo
+    if not os.path.exists(rpatch):
+        rpatch = patch
+    rc, out = sh("git apply %s" % rpatch, "/repo")
     if rc != 0:
         print("patch does not apply to /repo:", out); res["checks"]["applies_to_repo"] = False
     else:
@@ -85,6 +88,8 @@ def main():
     dst = os.path.join("/verif/seeded", "%s_%s" % (prop, name))
     os.makedirs(dst, exist_ok=True)
     shutil.copy(patch, dst)
+    if rpatch != patch:
+        shutil.copy(rpatch, dst)
     for d in demos:
         shutil.copy(d, dst)
     meta["verification"] = res
